@@ -30,6 +30,7 @@ def swarm(prop, r, tier):
     cfg["clock"] = R.pick(["mono", "stall", "back", "jump"])
     cfg["warn_error"] = R.chance(0.25)
     cfg["neg_source_rs"] = R.chance(0.04)
+    cfg["zero_params"] = R.pick([0.0, 0.0, 0.08])
     # a random subset of kinds is disabled (swarm)
     kinds = list(KINDS)
     for k in R.sample(ALL_CHILD_KINDS, R.randint(0, 4)):
@@ -198,6 +199,10 @@ def make_observe(g, m, cfg):
             {"dir": "newer", "version": "1.10.1"}, {"dir": "newer", "version": "2.0.0"}, {"dir": "newer", "version": "1.11.0"},
             {"dir": "older", "version": "1.9.9"}, {"dir": "older", "version": "1.0.0"}, {"dir": "older", "version": "1.10.0"},
         ])
+    if cfg["focus"] in ("C01", "C02") and R.chance(0.15):
+        # caller-chosen tolerances: the table must be converged to what was asked
+        op["kw"]["vtol"] = 10.0 ** R.randint(-8, -3)
+        op["kw"]["itol"] = 10.0 ** R.randint(-8, -3)
     if cfg["focus"] == "C19":
         op["render"] = [g.op_analysis_of(m, R.pick(["make_diag", "make_hdiag"])) for _ in range(R.randint(1, 2))]
         for rop in op["render"]:
